@@ -6,6 +6,7 @@ items: (ver, value, plen, form), form in net addr astr str, and for raw cases al
 host (addr/hostmask text), int (bare int), bad (unparsable text), rng (an IPRange object): the last three raise."""
 import ipaddress
 from common import Case, W, rand_value, rand_block, errname, plist
+import common
 import netaddr
 from netaddr import IPNetwork, IPAddress
 
@@ -192,7 +193,7 @@ def generate(rng, tier):
 def _obj(i):
     ver, v, p, form = i
     if form == 'net':
-        return IPNetwork((v, p), version=ver)
+        return common.make_net(ver, v, p)
     if form == 'addr':
         return IPAddress(v, ver)
     if form == 'astr':
